@@ -386,3 +386,37 @@ def import_rules(rep: Report, prog: Program, tier: str, PROP: str, RULE: str, mo
     rep.discharged += n_ok
     for s in [s for s in sub.samples if s.get("rule") in only][:2]:
         rep.samples.append(s)
+
+
+def reset_rekick_rule(rep: Report, prog: Program, PROP: str, RULE: str) -> None:
+    """Completing the pending stream-reset request must clear it *before* restarting _transmit_reconfig() (which only sends
+    when no request is pending); otherwise resets queued in the meantime never go out and their channels stay `closing`."""
+    from engine.index import walk_no_nested
+    rr = prog.func("rtcsctptransport.RTCSctpTransport._receive_reconfig_param")
+    clears = [n for n in walk_no_nested(rr.node) if isinstance(n, ast.Assign) and unparse(n.targets[0]) == "self._reconfig_request" and getattr(n.value, "value", 0) is None]
+    if not clears:
+        raise AnalysisError("_receive_reconfig_param: completion of the pending request not found")
+    parents: Dict[int, ast.AST] = {}
+    for p in ast.walk(rr.node):
+        for ch in ast.iter_child_nodes(p):
+            parents[id(ch)] = p
+
+    def is_kick(x: ast.AST) -> bool:
+        if not isinstance(x, ast.Call):
+            return False
+        nm = unparse(x.func)
+        return nm == "self._transmit_reconfig" or (nm == "asyncio.ensure_future" and bool(x.args) and isinstance(x.args[0], ast.Call) and unparse(x.args[0].func) == "self._transmit_reconfig")
+    ok = True
+    for c in clears:
+        par = parents[id(c)]
+        blk = next(lst for name in ("body", "orelse", "finalbody") for lst in [getattr(par, name, None)] if isinstance(lst, list) and any(x is c for x in lst))
+        idx = next(i for i, x in enumerate(blk) if x is c)
+        if not any(is_kick(x) for s in blk[idx + 1:] for x in ast.walk(s)):
+            ok = False
+            early = any(is_kick(x) for s in blk[:idx] for x in ast.walk(s))
+            rep.fail(mk_finding(prog, PROP, RULE, rr, c,
+                                "the pending stream-reset request is completed without restarting _transmit_reconfig() afterwards"
+                                + (" (it is called before the request is cleared, when it cannot send anything)" if early else "")
+                                + ": stream resets queued in the meantime never go out and those channels stay `closing`", construct="reset response re-kick"))
+    if ok:
+        rep.ok(RULE, "_receive_reconfig_param: completing a request clears it and then restarts _transmit_reconfig", sample=f"{len(clears)} site(s)")
